@@ -156,4 +156,30 @@ chk("C15", "gbv/streamfsm+cellcodec+wirefmt",
     "MySQL internals documentation of TABLE_MAP_EVENT and per-type metadata (spec tables in rules_c15.go).",
     "DESIGN.md 5/C15")
 
+chk("C01", "gbv/streamfsm",
+    "operand provenance per dispatch arm, constructor parameter mapping, loop-shape check of the row conversions, framing terms",
+    "End-to-end equality over all binlogs is a runtime quantity and is NOT decided; its composition is covered clause-wise by C02, C03, C09, C13, C15 and C16. C01's own check decides the routing facts "
+    "whose violation changes what the handler sees for every input: rows arms build Insert / Update / Delete events from the rows decoded in the same iteration with the right images in the right lists "
+    "(values<-Data image, identifies<-Identify image), one image per row in order, table = cached mapper table, timestamps = the dispatched event's; query arms buffer {category, decoded query, timestamp}; "
+    "the event is packet[1:] in a len-1 buffer and the packet kind is packet[0].",
+    "the clauses decided by the other checks named above.",
+    "DESIGN.md 5/C01")
+
+chk("C14", "gbv/dispatch+cellcodec",
+    "H-sccp over all 256 type bytes x size classes with executable-call extraction; canonical terms of the scalar printers and readers",
+    "Decides dispatch completeness and the layout rules of MySQL's binary JSON that do not depend on the document: exactly the declared type codes are handled (containers with the right size class), the "
+    "opaque sub-dispatch handles exactly DATE/TIME/DATETIME/NEWDECIMAL on the size-prefixed payload, a value entry is inlined iff its payload fits the entry (2 bytes, 4 in the large format) with the same "
+    "printer and width, every offset/size read uses the container's size class except the key length, entry stride 3/5, the offset reader composes 2/4 little-endian bytes, scalar printers render the "
+    "documented widths/signedness. Rendering of arbitrary documents (nesting, order, offsets, escaping, opaque arithmetic) is not decided.",
+    "MySQL json_binary.cc layout constants encoded in rules_c14.go.",
+    "DESIGN.md 5/C14")
+
+chk("C20", "gbv/jsonshape+dispatch",
+    "encoding/json type walk on go/types from every json.Marshal call; effective JSON field sets (tags, embedding, conflicts) joined with field-wise value provenance; totality of the name tables",
+    "Decides: marshalling cannot fail (only always-marshalable kinds, no recursion, only the package's own Marshalers, each returning exactly its json.Marshal result); every source field the statement "
+    "lists reaches a visible, non-omitempty JSON field in every branch; name tables are total, distinct and looked up by the receiver; the data field is null exactly when c.Data == nil and the string "
+    "otherwise. encoding/json's escaping and invalid-UTF-8 replacement are trusted, not decided.",
+    "encoding/json field-selection rules as re-implemented in rules_c20.go.",
+    "DESIGN.md 5/C20")
+
 ENGINES[0]["serves_properties"] = sorted(CHECKS.keys())
